@@ -809,25 +809,57 @@ func (a *analyser) derefs(e ast.Expr, guards guardStack, inCond bool) {
 	walk(e, guards)
 }
 
+// reqLvalue: e is a field of the request struct / a scalar request parameter itself (not a local
+// computed from one)
+func (a *analyser) reqLvalue(e ast.Expr) (string, bool) {
+	root, path, ok := selPath(e)
+	if !ok {
+		return "", false
+	}
+	if root == a.reqStruct && a.reqStruct != "" && path != "" {
+		return path, true
+	}
+	if a.scalars[root] && path == "" {
+		return root, true
+	}
+	return "", false
+}
+
 // classifyIf: `if input.F != nil && *input.F == <zero> { input.F = nil }` and relatives.
 func (a *analyser) classifyIf(x *ast.IfStmt) {
 	m := a.m
 	var targets []string
 	okShape := true
+	// writes to request fields among the statements of the body; other statements (locals, calls)
+	// do not matter here
 	for _, st := range x.Body.List {
 		as, ok := st.(*ast.AssignStmt)
 		if !ok || len(as.Lhs) != 1 {
-			okShape = false
-			break
+			continue
 		}
-		r := a.ref(as.Lhs[0])
-		if len(r) != 1 || !strings.HasPrefix(r[0], "req:") {
-			okShape = false
-			break
+		f, ok := a.reqLvalue(as.Lhs[0])
+		if !ok {
+			continue
 		}
-		targets = append(targets, strings.TrimPrefix(r[0], "req:"))
+		targets = append(targets, f)
 	}
-	if !okShape || len(targets) == 0 {
+	// … and none hidden deeper (nested blocks)
+	deep := 0
+	ast.Inspect(x.Body, func(n ast.Node) bool {
+		if as, ok := n.(*ast.AssignStmt); ok {
+			for _, l := range as.Lhs {
+				if _, ok := a.reqLvalue(l); ok {
+					deep++
+				}
+			}
+		}
+		return true
+	})
+	if deep != len(targets) {
+		fatal("%s: write to the request inside a nested block (line %d)", m.name, fset.Position(x.Pos()).Line)
+	}
+	_ = okShape
+	if len(targets) == 0 {
 		return // not a write to the request (error tests etc.)
 	}
 	if x.Else != nil || len(targets) != 1 {
@@ -864,6 +896,28 @@ func (a *analyser) classifyIf(x *ast.IfStmt) {
 	}
 }
 
+// errSource: the right-hand side of the last assignment to `err` before pos ("" = none found)
+func (a *analyser) errSource(pos token.Pos) string {
+	best, src := token.NoPos, ""
+	ast.Inspect(a.fn.Body, func(n ast.Node) bool {
+		as, ok := n.(*ast.AssignStmt)
+		if !ok || as.Pos() >= pos || as.Pos() < best {
+			return true
+		}
+		for _, l := range as.Lhs {
+			if id, ok := l.(*ast.Ident); ok && id.Name == "err" && len(as.Rhs) == 1 {
+				best = as.Pos()
+				src = exprString(as.Rhs[0])
+				if c, ok := as.Rhs[0].(*ast.CallExpr); ok {
+					src = exprString(c.Fun) + "(…)"
+				}
+			}
+		}
+		return true
+	})
+	return src
+}
+
 func (a *analyser) classifyReturn(rs *ast.ReturnStmt, nres int) {
 	m := a.m
 	if len(rs.Results) == 0 {
@@ -877,7 +931,13 @@ func (a *analyser) classifyReturn(rs *ast.ReturnStmt, nres int) {
 		// handleError(x): x must be the SDK call's error or the call itself
 	case es == "err":
 		// a raw error: acceptable only if err was produced by something else than an SDK call
-		m.errOther = append(m.errOther, fmt.Sprintf("line %d: raw err", fset.Position(rs.Pos()).Line))
+		// (the last assignment to err before this return decides)
+		src := a.errSource(rs.Pos())
+		if src == "" || strings.Contains(src, "s.client.") {
+			m.errOther = append(m.errOther, fmt.Sprintf("line %d: raw err", fset.Position(rs.Pos()).Line))
+		} else {
+			m.errOther = append(m.errOther, fmt.Sprintf("line %d: err of %s", fset.Position(rs.Pos()).Line, src))
+		}
 	case strings.HasPrefix(es, "s3err.GetAPIError("):
 		if c, ok := errExpr.(*ast.CallExpr); ok && len(c.Args) == 1 {
 			m.fixedError = strings.TrimPrefix(exprString(c.Args[0]), "s3err.")
